@@ -16,6 +16,7 @@ class Kit:
         self.spec_funcs = {}
         self.ext_models = {}
         self.ext_methods = {}
+        self.ext_attrs = {}
         self.enums = {}
         self.heap_axioms = []
         self.trusted = []       # (name, reason)
@@ -48,6 +49,12 @@ class Kit:
             return f
         return deco
 
+    def external_attr(self, owner, name):
+        def deco(f):
+            self.ext_attrs[(owner, name)] = f
+            return f
+        return deco
+
     def axiom(self, f):
         self.heap_axioms.append(f)
         return f
@@ -63,6 +70,7 @@ class Kit:
 
     def engine(self, repo):
         e = Engine(repo, self.contracts, self.fields, self.spec_funcs, self.ext_models, self.ext_methods)
+        e.ext_attrs = dict(self.ext_attrs)
         e.enums = dict(self.enums)
         e.heap_axioms = list(self.heap_axioms)
         return e
